@@ -135,6 +135,7 @@ struct Conn {
     bool tlsHandshaking = false;
     qint64 rxBytes = 0, txBytes = 0;
     QString lastId;
+    QString lastTo;   // the 'to' of the IQ that $ID refers to ($FROMATTR: a reply comes from where the request went)
     QString lastPrevid;
     int smRequestsSent = 0, smAnswersSeen = 0;  // <r/> sent by the script / <a/> received: an <r/>-fence waits until they are equal
     QString lastCaps;  // node#ver of the last <c/> seen in a presence of this connection
@@ -248,7 +249,10 @@ struct Conn {
         o["sm_inbound"] = smInbound;
         if (g_quietRx) {
             queue << o;
-            if (!el.attribute(u"id"_s).isEmpty() && tag == u"iq") lastId = el.attribute(u"id"_s);
+            if (!el.attribute(u"id"_s).isEmpty() && tag == u"iq") {
+                lastId = el.attribute(u"id"_s);
+                lastTo = el.attribute(u"to"_s);
+            }
             return;
         }
         if (tag == u"a" && ns == u"urn:xmpp:sm:3") {
@@ -262,7 +266,10 @@ struct Conn {
         }
         J(o);
         queue << o;
-        if (!el.attribute(u"id"_s).isEmpty() && tag == u"iq") lastId = el.attribute(u"id"_s);
+        if (!el.attribute(u"id"_s).isEmpty() && tag == u"iq") {
+            lastId = el.attribute(u"id"_s);
+            lastTo = el.attribute(u"to"_s);
+        }
         for (const auto &ar : g_autoReplies) {
             if (tag == u"iq" && (o["type"].toString() == u"get" || o["type"].toString() == u"set") && o["childns"].toString() == ar.childns) {
                 QString x = ar.xml;
@@ -571,6 +578,7 @@ struct Case {
     {
         if (cn) {
             s.replace(u"$ID"_s, cn->lastId);
+            s.replace(u"$FROMATTR"_s, cn->lastTo.isEmpty() ? QString() : u" from='"_s + cn->lastTo.toHtmlEscaped() + u"'"_s);
             s.replace(u"$CONN"_s, QString::number(cn->connIndex));
             s.replace(u"$PREVID"_s, cn->lastPrevid);
             s.replace(u"$CAPS"_s, cn->lastCaps.toHtmlEscaped().replace(u'\'', u"&apos;"_s));
@@ -907,7 +915,10 @@ struct Case {
             }
             if (st.contains("var")) vars[st["var"].toString()] = found["id"].toString();
             // $ID in the next send refers to the element that was awaited, not to whatever IQ happened to arrive last
-            if (auto *cn2 = c.current(); cn2 && !found["id"].toString().isEmpty()) cn2->lastId = found["id"].toString();
+            if (auto *cn2 = c.current(); cn2 && !found["id"].toString().isEmpty()) {
+                cn2->lastId = found["id"].toString();
+                cn2->lastTo = found["to"].toString();
+            }
             return true;
         }
         if (op == u"await_accept") {
